@@ -742,6 +742,30 @@ def rule_l14(ctx):
                             "the checker re-types an untyped range for Type::%s elements, so the argument parser answers `0..3` for a parameter of type [i8; 3] with Literal::Range - "
                             "and is_of_type refuses that literal: literal_arg / set_literal / parse_literal fail with InvalidLiteralType for a text that is accepted inside a program" % kind,
                             ctx.fn(IS_OF_TYPE)["sp"]))
+    # for signed elements the representability bound is the *signed* type's max (sibling of L11's clause for constrain_type): the
+    # bound handed to the final comparison / predicate has SignedNumType::max among its origins
+    if "Signed" in kinds and "Signed" in gate:
+        smax = [b for b in sorted(region) if gb.term(b) and gb.term(b)["k"] == "call" and str(mir.callee(gb.term(b)) or "").endswith("SignedNumType::max") and not gb.blocks[b]["cleanup"]]
+        used = False
+        for b in sorted(region):
+            t = gb.term(b)
+            if gb.blocks[b]["cleanup"] or not t:
+                continue
+            ops = []
+            if t["k"] == "call" and (t["func"].get("declared") or "").startswith("std::option::Option") and len(t["args"]) == 2:
+                ops = [t["args"][0]]          # receiver of is_none_or / is_some_and / map_or (the predicate compares its payload)
+            for st in gb.blocks[b]["stmts"]:
+                if st["k"] == "assign" and st["rv"]["k"] == "binop" and st["rv"]["op"] in ("Lt", "Le", "Gt", "Ge"):
+                    ops += [st["rv"]["l"], st["rv"]["r"]]
+            for o in ops:
+                if o.get("k") in ("copy", "move") and any(r[0] == "call" and r[1] in smax for (r, p) in gb.deep_sources(o, 6)):
+                    used = True
+        if used:
+            res.ok({"verdict": "for signed element types the representability bound derives from SignedNumType::max()"})
+        else:
+            res.bad(Finding("L14", IS_OF_TYPE, "range for a signed array is bounded by the unsigned type's max",
+                            "is_of_type accepts a Range for signed element types but the bound its last element is compared with does not come from SignedNumType::max(): "
+                            "Literal::Range(120, 130, U8) is accepted for [i8; 10] and 128, 129 encode as -128, -127", ctx.fn(IS_OF_TYPE)["sp"]))
     return res
 
 
